@@ -88,12 +88,7 @@ impl Shr<usize> for BigUint {
 
 //@ stub k_div/div_rem_digit
 
-//@ assume div_rem_core : Knuth algorithm D with the 3-by-2 quotient estimate and add-back (src/biguint/division.rs): assumed; its preconditions (normalised divisor of >= 2 digits, dividend at least as long) are PROVED at both call sites below
-#[verifier::external_body]
-fn div_rem_core(a: BigUint, b: &[BigDigit]) -> (r: (BigUint, BigUint))
-    requires a.wf(), wf(b@), b.len() > 1, a.dg().len() >= b.len(), b[b.len() - 1] >= 0x8000_0000_0000_0000u64
-    ensures r.0.wf(), r.1.wf(), a.v() == r.0.v() * val(b@) + r.1.v(), r.1.v() < val(b@)
-{ unimplemented!() }
+//@ stub k_divcore/div_rem_core
 
 /// under wf, a larger value has at least as many digits
 pub proof fn lemma_longer(u: Seq<u64>, d: Seq<u64>)
